@@ -20,8 +20,10 @@ def _quiet(part):
     class P(part):
         @staticmethod
         def oracle(case, obs):
-            m = part.oracle(case, obs)
-            return None if m and part.signature(case, obs, m) in KNOWN else m
+            for m in part.messages(case, obs):
+                if m.startswith('harness:') or part.signature(case, obs, m) not in KNOWN:
+                    return m
+            return None
     P.__name__ = part.__name__
     return P
 
